@@ -313,6 +313,30 @@ impl Ctx {
         }
     }
 
+    /// `w` as a consumer of its JSON form sees it, the steps' key lists in the scenario's order
+    fn via_text(&self, d: &Value, w: MetadataWrapper) -> MetadataWrapper {
+        let mut v = match serde_json::to_value(&w) {
+            Ok(v) => v,
+            Err(_) => return w,
+        };
+        if d["typ"] == "layout" {
+            if let (Some(steps), Some(dsteps)) = (v["steps"].as_array_mut(), d["steps"].as_array()) {
+                for (st, ds) in steps.iter_mut().zip(dsteps.iter()) {
+                    let want: Vec<String> = ds["pubkeys"].as_array().unwrap().iter().map(|k| self.km.idstr(k.as_str().unwrap())).collect();
+                    let have: Vec<String> = st["pubkeys"].as_array().map(|a| a.iter().map(|x| x.as_str().unwrap_or("").to_string()).collect()).unwrap_or_default();
+                    let mut a = want.clone();
+                    let mut b = have.clone();
+                    a.sort();
+                    b.sort();
+                    if a == b {
+                        st["pubkeys"] = json!(want);
+                    }
+                }
+            }
+        }
+        serde_json::from_value::<MetadataWrapper>(v).unwrap_or(w)
+    }
+
     /// the JSON text of document d as shipped
     fn doc_text(&self, d: &Value) -> String {
         if d["typ"] == "garbage" {
@@ -333,6 +357,10 @@ impl Ctx {
                 signed_over = parsed;
             }
         }
+        // the documents reach the verifier as TEXT: what the builders return is re-read from its JSON form, with
+        // list-valued fields in the order the scenario gives them (the builders' own ordering must not matter)
+        let shipped = self.via_text(d, shipped);
+        let signed_over = self.via_text(d, signed_over);
         if edit != "none" {
             assert!(shipped != signed_over, "edit {edit} must change the content");
         }
@@ -346,6 +374,15 @@ impl Ctx {
                 v[i] ^= 0x10;
             }
             sigs.push(make_sig(&self.km.idstr(s["kid"].as_str().unwrap()), &v));
+        }
+        // replay prelude: the content these signatures were really made over is verified once, successfully, in
+        // this process before the shipped (altered) content is offered with the same signatures
+        if edit != "none" {
+            let genuine = Metablock { signatures: sigs.clone(), metadata: signed_over.clone() };
+            for s in d["sigs"].as_array().unwrap() {
+                let by = s["by"].as_str().unwrap();
+                let _ = guarded(|| genuine.verify(1, [self.km.pk(by)]).is_ok());
+            }
         }
         let block = Metablock { signatures: sigs, metadata: shipped };
         let mut val = serde_json::to_value(&block).unwrap();
